@@ -7,8 +7,39 @@ from mirutil import find_fn, flow_locals, calls_to, arg_locals, where
 UNSTABLE_EXPECTED = {'MULTI_MEMORY', 'MEMORY64', 'THREADS'}   # named by property C05/C14
 
 
+def flag_set(t):
+    """interpret a term of type WasmFeatures as (base marker or None, set of flag names): empty(), named flag constants,
+    unions (`|`, `union`), and the insert/remove history recorded as after(..) wrappers are understood"""
+    if not isinstance(t, tuple) or not t:
+        raise ValueError('not a feature term: %r' % (t,))
+    k = t[0]
+    if k == 'call':
+        name = t[1].split('::')[-1]
+        if t[1] in ('after', 'loop_carried', 'loop_result'):
+            return flag_set(t[2][0] if t[1] == 'after' else t[2][1])
+        if not t[2]:
+            if name == 'empty':
+                return 'empty', set()
+            if name.isupper() or name.replace('_', '').isupper():
+                return None, {name}
+            return name, set()           # all() / default(): an unknown, non-empty base
+        if name in ('union',) and len(t[2]) == 2:
+            b1, f1 = flag_set(t[2][0])
+            b2, f2 = flag_set(t[2][1])
+            return (b1 if b1 not in (None, 'empty') else b2 if b2 is not None else b1), f1 | f2
+        raise ValueError('unsupported feature operation %s' % name)
+    if k == 'bin' and t[1] == 'BitOr':
+        b1, f1 = flag_set(t[2])
+        b2, f2 = flag_set(t[3])
+        base = b1 if b1 not in (None, 'empty') else (b2 if b2 not in (None,) else b1)
+        return base, f1 | f2
+    raise ValueError('unsupported feature term %s' % show(t)[:80])
+
+
 def feature_sets(F):
-    """(always_enabled, unstable_only, base_call) extracted by evaluating get_wasmparser_wasm_features"""
+    """(always_enabled, unstable_only, base, lost) extracted by evaluating get_wasmparser_wasm_features for both values of
+    only_stable_features.  The set may be assembled by insert() calls on empty(), by `|` of flag constants, through
+    helpers - only the resulting set matters."""
     p = find_fn(F, 'ModuleConfig::get_wasmparser_wasm_features', 'hir')
     if p is None:
         raise KeyError('get_wasmparser_wasm_features not found')
@@ -19,17 +50,17 @@ def feature_sets(F):
     for w in ws:
         if w.outcome != 'return':
             raise ValueError('feature function has a %s world' % w.outcome)
-        flags = set()
+        b, flags = flag_set(strip_after(w.value) if w.value[0] == 'call' and w.value[1] == 'after' else w.value)
         for e in w.trace:
             op = e['callee'].split('::')[-1]
-            flag = show(e['args'][1]).replace('()', '')
+            _, fl = flag_set(e['args'][1])
             if op == 'insert':
-                flags.add(flag)
+                flags |= fl
             elif op == 'remove':
-                flags.discard(flag)
+                flags -= fl
             else:
                 raise ValueError('unsupported flag operation ' + op)
-        base = strip_after(w.value)
+        base = ('call', 'wasmparser::WasmFeatures::empty', ()) if b in ('empty', None) else ('call', str(b), ())
         asm = [(show(a[0][1]) if a[0][0] == 'atom' else show(a[0]), a[1]) for a in w.assumptions]
         if asm == [('self.only_stable_features', True)]:
             stable = flags
